@@ -14,7 +14,9 @@ RULE = ("every mark graph MARKS(n) (each pair one of none,->,<-,<->,--,o-o,o->,<
         "MARKS(n), 1/5 of the random graphs): a label that is not in G from every family (int, big int, negative, str, char, 0-/2-/3-"
         "tuple, frozenset) as source of all_semi_directed_paths / possible_descendants / possible_ancestors and (non-iterable families) "
         "as target must raise NodeNotFound, the class HEAD raises for an int; is_semi_directed_path on every "
-        "duplicate-free node sequence and on non-paths (repeats, absent node, empty); both ancestry sets of every node; seeded random "
+        "duplicate-free node sequence, on EVERY node sequence with a repeat up to length 4 (n<=3), on lists built from walks of the "
+        "graph that revisit a node (inner node twice, first node again mid-list, return to the start; n>=4 and random graphs; "
+        "expected False) and on other non-paths (absent node, empty); both ancestry sets of every node; seeded random "
         "MARKS graphs n<=7 and dense possibly-directed graphs n=5..7 with sampled queries. REPEAT stream (every graph n<=3 with an "
         "edge, 1/3 of the n=4 sample, 1/4 of the random ones): the PAG is built for a neighbour graph (one pair re-marked or one edge "
         "re-wired with the same node and edge counts), all queries are run and discarded, the SAME object is edited in place into g "
@@ -78,6 +80,13 @@ def all_probes(n):
     for r in range(1, n + 1):
         for p in itertools.permutations(range(n), r):
             ps.append(list(p))
+    # every node sequence WITH a repeat up to length 4 (n<=3; contains every walk that revisits a node: an inner node twice, the
+    # first node again in the middle, the last node earlier, a walk returning to its start)
+    if n <= 3:
+        for r in range(2, 5):
+            for p in itertools.product(range(n), repeat=r):
+                if len(set(p)) < r:
+                    ps.append(list(p))
     # non-paths: repeats, absent node
     for a in range(n):
         ps.append([a, a])
@@ -87,6 +96,44 @@ def all_probes(n):
             if a != b:
                 ps.append([a, b, a])
     return ps
+
+
+def semi_steps(g):
+    """{u: [v]} with u, v a step the per-pair test of is_semi_directed_path accepts (an edge u..v without an arrowhead at u)"""
+    D = {tuple(e) for e in g["D"]}
+    B = {tuple(e) for e in g["B"]} | {(b, a) for a, b in g["B"]}
+    U = {tuple(e) for e in g["U"]} | {(b, a) for a, b in g["U"]}
+    C = {tuple(e) for e in g["C"]}
+    return {u: [v for v in g["V"] if v != u and ((u, v) in D or (u, v) in U or (u, v) in C) and (v, u) not in D and (u, v) not in B]
+            for u in g["V"]}
+
+
+def walk_probes(g, rng, k=12):
+    """node lists built from WALKS of g (every consecutive pair passes the edge test) that repeat a node: expected False.
+    Shapes: inner node twice, first node again in the middle, last node seen earlier, return to the start; plus a walk prefix
+    that is a genuine path (expected True) and a walk with a node that is not in G appended."""
+    nxt = semi_steps(g)
+    out = []
+    starts = [u for u in g["V"] if nxt[u]]
+    for _ in range(k):
+        if not starts:
+            break
+        w = [rng.choice(starts)]
+        while len(w) < 7 and nxt[w[-1]]:
+            w.append(rng.choice(nxt[w[-1]]))
+            if w[-1] in w[:-1]:
+                break
+        out.append(list(w))                                   # ends in a repeat (or is a path if the walk got stuck)
+        if w[-1] in w[:-1] and nxt[w[-1]]:
+            out.append(w + [rng.choice(nxt[w[-1]])])          # the repeat is now INNER: [.., a, .., a, c]
+            fresh = [v for v in nxt[w[-1]] if v not in w]
+            if fresh:
+                out.append(w + [fresh[0]])                    # first/inner node repeated, last node new
+        out.append(w[:-1])                                    # the duplicate-free prefix
+        out.append(w[:2])
+        out.append(w[:1])
+        out.append(w[:-1] + [len(g["V"]) + 3])                # a node that is not in G
+    return [p for p in out if p]
 
 
 def dense_graph(rng, n):
@@ -134,7 +181,7 @@ def gen_cases(tier, rng):
     qs, ps = all_queries(4), all_probes(4)
     for i in range(150 if tier == "quick" else 6000):
         g = gr.from_kinds(4, [rng.choice(gr.MARK_KINDS) for _ in gr.pairs(4)])
-        c = {"kind": "marks4s", "g": g, "qs": qs, "ps": ps}
+        c = {"kind": "marks4s", "g": g, "qs": qs, "ps": ps + walk_probes(g, rng)}
         if i % 3 == 0:
             c["rep"] = rng.randrange(1 << 30)
             c["kind"] = "marks4s-rep"
@@ -145,7 +192,7 @@ def gen_cases(tier, rng):
         kinds = rng.choice([gr.MARK_KINDS, ["none", "->", "<-", "o-o", "o->", "<-o", "--"], ["none", "o-o", "--", "->", "<-"]])
         g = gr.from_kinds(n, [rng.choice(kinds[1:]) if rng.random() < p_edge else "none" for _ in gr.pairs(n)])
         qs, ps = random_queries(rng, n)
-        c = {"kind": "rand", "g": g, "qs": qs, "ps": ps}
+        c = {"kind": "rand", "g": g, "qs": qs, "ps": ps + walk_probes(g, rng)}
         if i % 5 == 1:
             c["miss"] = 1
         if i % 4 == 0:
@@ -157,7 +204,7 @@ def gen_cases(tier, rng):
         g = dense_graph(rng, n)
         qs, ps = random_queries(rng, n, nq=12, nps=30)
         qs = [q if q[2] and q[2][0] <= 4 else [q[0], q[1], [rng.randint(1, 4)]] + q[3:] for q in qs] if n == 7 else qs  # bound the path count
-        c = {"kind": "dense", "g": g, "qs": qs, "ps": ps}
+        c = {"kind": "dense", "g": g, "qs": qs, "ps": ps + walk_probes(g, rng)}
         if i % 4 == 0:
             c["rep"] = rng.randrange(1 << 30)
             c["kind"] = "dense-rep"
